@@ -127,6 +127,7 @@ class NamespaceFunction(Namespace[symtable.Function]):
 
     is_method: bool = False  # whether the function is a method
     zero_arg_super_used: bool = False  # whether the method uses a zero-argument super
+    first_parameter: str | None = None  # name of the first positional parameter
 
     # list of bodies of converted return nodes
     return_node_bodies: list[list[expr]]
@@ -189,6 +190,43 @@ class NamespaceFunction(Namespace[symtable.Function]):
                 raise RuntimeError(  # pragma: no cover
                     f"Unable to search the origin of nonlocal/free '{nonlocal_free}'"
                 )
+
+    def get_explicit_super(self, node: Call) -> Call | None:
+        """
+        `super()` reads `__class__` and the first argument from the frame it
+        is called in. Loops become comprehensions, which have a frame of their
+        own before Python 3.12, so the call is spelled out:
+        `super(__class__, <first parameter>)`
+        """
+        if not (
+            isinstance(node.func, Name)
+            and node.func.id == "super"
+            and not node.args
+            and not node.keywords
+        ):
+            return None
+        if not self.is_method or self.first_parameter is None:
+            return None
+        if self.in_inner_scope():
+            # a lambda or a comprehension of the source has its own frame in
+            # the source as well
+            return None
+        symbol = self.symt.lookup("super")
+        if not symbol.is_global() or symbol.is_declared_global():
+            return None
+        root: Namespace = self
+        while not isinstance(root, NamespaceGlobal):
+            root = root.outer_nsp
+        if "super" in root.symt.get_identifiers():
+            return None  # an ordinary call of the user's `super`
+        return Call(
+            func=node.func,
+            args=[
+                Name(id="__class__", ctx=Load()),
+                Name(id=self.first_parameter, ctx=Load()),
+            ],
+            keywords=[],
+        )
 
     def get_flow_ctrl_expr(self):
         self.flow_ctrl_return_used = True
